@@ -12,6 +12,9 @@ import time
 import t2lib as T
 
 ENDINGS = ["app_closes_first", "target_closes_first", "target_closes_app_lingers", "app_resets", "target_resets", "target_refused", "target_unresolvable"]
+# dimension audit: endings at other points of the transfer (before the first byte; in the middle of a bulk transfer), a history of
+# flows that end in DIFFERENT ways at the same time over all four local handshakes, the link reset instead of closed
+ENDINGS_AUDIT = ["app_closes_immediately", "target_closes_immediately", "app_resets_midtransfer", "target_resets_midtransfer", "mixed"]
 FD_WAIT = 5.0
 
 
@@ -34,10 +37,15 @@ def _sb(seed, label, n):
     return T.seeded_bytes(seed, label, n)
 
 
-def flow_scripted(dep, ending, seed, label, deadline):
+def flow_scripted(dep, ending, seed, label, deadline, kind="socks5_ipv4"):
     a1, b1 = _sb(seed, label + "/a1", 3000), _sb(seed, label + "/b1", 3000)
     a2, b2 = _sb(seed, label + "/a2", 50000), _sb(seed, label + "/b2", 50000)
-    if ending == "app_closes_first":
+    if ending in ("app_resets_midtransfer", "target_resets_midtransfer"):
+        # 300 kB written each way and NOT awaited: the reset comes while data is in flight in both directions
+        a3, b3 = _sb(seed, label + "/a3", 300000), _sb(seed, label + "/b3", 300000)
+        steps = [("app_send", a1), ("target_send", b1), ("drain",), ("app_send", a3), ("target_send", b3),
+                 ("app_reset",) if ending == "app_resets_midtransfer" else ("target_reset",)]
+    elif ending == "app_closes_first":
         steps = [("app_send", a1), ("target_send", b1), ("drain",), ("app_send", a2), ("app_close",)]
     elif ending == "target_closes_first":
         steps = [("app_send", a1), ("target_send", b1), ("drain",), ("target_send", b2), ("target_close",)]
@@ -48,10 +56,16 @@ def flow_scripted(dep, ending, seed, label, deadline):
     else:
         raise ValueError(ending)
     with T.TcpTarget() as tgt:
-        o = T.run_tcp_flow(dep, tgt, "socks5_ipv4", steps, deadline=deadline)
+        o = T.run_tcp_flow(dep, tgt, kind, steps, deadline=deadline)
     problems = []
     if o["target_connections"] != 1:
         problems.append("target got %d connections" % o["target_connections"])
+    if ending in ("app_resets_midtransfer",):
+        if o["target_end"] is None:
+            problems.append("target saw neither EOF nor RST within %.0f s after the app reset in the middle of the transfer" % deadline)
+    elif ending in ("target_resets_midtransfer",):
+        if o["app_end"] is None:
+            problems.append("app saw neither EOF nor RST within %.0f s after the target reset in the middle of the transfer" % deadline)
     if ending == "app_closes_first":
         if o["target_received"] != o["app_sent"]:
             problems.append("target received %d of the %d bytes the app wrote before closing" % (len(o["target_received"]), len(o["app_sent"])))
@@ -74,6 +88,54 @@ def flow_scripted(dep, ending, seed, label, deadline):
             "app_received": len(o["app_received"]), "app_end": o["app_end"], "target_end": o["target_end"], "errors": o["errors"][:3],
             "seconds": o["seconds"]}
     return (not problems), "; ".join(problems), summ
+
+
+def flow_app_closes_immediately(dep, ending, seed, label, deadline, kind="socks5_ipv4"):
+    """the application completes the local handshake and closes before writing a byte.  The tunnel may or may not have been opened
+    by then; a target that WAS dialled must see the end of the stream, and must receive nothing the application did not write"""
+    problems = []
+    with T.TcpTarget() as tgt:
+        s, reply, ok, prefix = T.open_app(dep, kind, tgt.addr, timeout=deadline)
+        app = T.Conn(s, name="app-aci")
+        app.close()
+        if not ok:
+            return False, "local handshake failed: %r" % (reply[:40],), {}
+        tconn = tgt.wait_conn(0, 1.5)          # a dial that starts later than this is not waited for (the descriptor count would show a leak)
+        end, got = None, b""
+        if tconn is not None:
+            end = tconn.wait_end(deadline)
+            got = tconn.received()
+            if end is None:
+                problems.append("target was dialled and saw neither EOF nor RST within %.0f s after the app closed (before writing anything)" % deadline)
+            if got != bytes(prefix):
+                problems.append("target received %d bytes, the app wrote %d" % (len(got), len(prefix)))
+        n = tgt.count()
+        if n > 1:
+            problems.append("target got %d connections" % n)
+    return (not problems), "; ".join(problems), {"target_dialled": tconn is not None, "target_end": end, "target_received": len(got), "app_sent": len(prefix), "handshake": kind}
+
+
+def flow_target_closes_immediately(dep, ending, seed, label, deadline, kind="socks5_ipv4"):
+    """the target accepts and closes at once; the application has not written anything: it must see the end of the stream"""
+    problems = []
+    with T.TcpTarget(mode=("immediate", b"", True)) as tgt:
+        s, reply, ok, prefix = T.open_app(dep, kind, tgt.addr, timeout=deadline)
+        app = T.Conn(s, name="app-tci")
+        try:
+            if not ok:
+                return False, "local handshake failed: %r" % (reply[:40],), {}
+            end = app.wait_end(deadline)
+            got = app.received()
+            if end is None:
+                problems.append("app saw neither EOF nor RST within %.0f s although the target closed right after accepting" % deadline)
+            if got:
+                problems.append("app received %d bytes, the target wrote none" % len(got))
+            n = tgt.count()
+            if n != 1:
+                problems.append("target got %d connections" % n)
+        finally:
+            app.close()
+    return (not problems), "; ".join(problems), {"app_end": end, "app_received": len(got), "target_connections": n, "handshake": kind}
 
 
 def flow_linger(dep, ending, seed, label, deadline, held):
@@ -134,7 +196,7 @@ def flow_unreachable(dep, ending, seed, label, deadline):
                                                   "app_received": got, "seconds": round(time.monotonic() - t0, 3)}
 
 
-def batch_link_cut(dep, fwd, n, seed, label, deadline):
+def batch_link_cut(dep, fwd, n, seed, label, deadline, reset=False):
     """n flows through the forwarder; while all of them transfer in both directions the forwarder closes
     both of its sockets of every link -> list of (ok, detail, summary)"""
     results = [None] * n
@@ -213,7 +275,7 @@ def batch_link_cut(dep, fwd, n, seed, label, deadline):
     while time.monotonic() < end and sum(fwd.relayed()) - c0 < 256 * 1024 * n:
         time.sleep(0.01)
     info["relayed_bulk_bytes_before_cut"] = sum(fwd.relayed()) - c0
-    info["links_cut"] = fwd.cut()
+    info["links_cut"] = fwd.cut(reset=reset)
     cut_done.set()
     for t in ths:
         t.join(deadline * 6 + 10)
@@ -244,10 +306,15 @@ def run_scenario(name, cfg, ending, n, seed):
                            "target_closes_app_lingers": "app receives the complete answer, then EOF; it keeps its own socket open while the descriptors are counted",
                            "app_resets": "target sees EOF or RST", "target_resets": "app sees EOF or RST",
                            "target_refused": "app sees EOF or RST", "target_unresolvable": "app sees EOF or RST",
-                           "link_cut": "app AND target see EOF or RST"}[ending] + " within %.0f s" % deadline,
+                           "link_cut": "app AND target see EOF or RST", "link_reset": "app AND target see EOF or RST (both sockets of every link are RESET by the hop)",
+                           "app_closes_immediately": "the app closes before writing a byte: if the target was dialled it sees EOF or RST",
+                           "target_closes_immediately": "the target closes right after accepting: the app (which wrote nothing) sees EOF or RST",
+                           "app_resets_midtransfer": "the app resets while 300 kB travel each way: target sees EOF or RST",
+                           "target_resets_midtransfer": "the target resets while 300 kB travel each way: app sees EOF or RST",
+                           "mixed": "flow i ends like ending i mod 11 of the list, over the four local handshakes in rotation; each flow meets the requirement of its ending"}[ending] + " within %.0f s" % deadline,
               "fd_count": "client and server back at (<=) the idle baseline within %.0f s" % FD_WAIT}
     try:
-        if ending == "link_cut":
+        if ending in ("link_cut", "link_reset"):
             fwd = T.TcpForwarder()
             spec["extra"] = {"client_server": {"port": fwd.port}}
         try:
@@ -281,17 +348,35 @@ def run_scenario(name, cfg, ending, n, seed):
                     time.sleep(0.005)
             smp = threading.Thread(target=sampler, daemon=True)
             smp.start()
-            if ending == "link_cut":
-                flows, info = batch_link_cut(dep, fwd, n, seed, name, deadline)
+            if ending in ("link_cut", "link_reset"):
+                flows, info = batch_link_cut(dep, fwd, n, seed, name, deadline, reset=(ending == "link_reset"))
             else:
                 flows = [None] * n
-                fn = flow_unreachable if ending in ("target_refused", "target_unresolvable") else flow_scripted
-                if ending == "target_closes_app_lingers":
-                    fn = lambda dep, ending, seed, label, deadline: flow_linger(dep, ending, seed, label, deadline, held)   # noqa: E731
+
+                def pick(e):
+                    if e in ("target_refused", "target_unresolvable"):
+                        return flow_unreachable
+                    if e == "target_closes_app_lingers":
+                        return lambda dep, ending, seed, label, deadline: flow_linger(dep, ending, seed, label, deadline, held)
+                    if e == "target_closes_immediately":
+                        return flow_target_closes_immediately
+                    if e == "app_closes_immediately":
+                        return flow_app_closes_immediately
+                    return flow_scripted
+                every = ENDINGS + ENDINGS_AUDIT[:-1]
 
                 def one(i):
                     try:
-                        flows[i] = fn(dep, ending, seed, "%s/%d" % (name, i), deadline)
+                        if ending == "mixed":
+                            e = every[i % len(every)]
+                            f = pick(e)
+                            if f in (flow_scripted, flow_target_closes_immediately, flow_app_closes_immediately):
+                                r = f(dep, e, seed, "%s/%d" % (name, i), deadline, kind=T.HANDSHAKE_KINDS[(i // len(every) + i) % 4])
+                            else:
+                                r = f(dep, e, seed, "%s/%d" % (name, i), deadline)
+                            flows[i] = (r[0], ("[%s] %s" % (e, r[1])) if r[1] else "", dict(r[2], ending=e))
+                        else:
+                            flows[i] = pick(ending)(dep, ending, seed, "%s/%d" % (name, i), deadline)
                     except Exception as e:
                         flows[i] = (False, "driver: %r" % (e,), {})
                 ths = [threading.Thread(target=one, args=(i,), daemon=True) for i in range(n)]
@@ -346,12 +431,25 @@ def suite_teardown(tier, seed, only):
     import random
     jobs = []
     batches = [1, 8] if tier == "quick" else [1, 8, 64]
+    big_quick = {("vmess.aes-128-gcm.tcp", "target_closes_first"), ("shadowsocks.2022-blake3-aes-128-gcm.tcp", "app_resets"), ("trojan.-.tls", "mixed")}
     for cfg in teardown_configs(tier):
-        endings = list(ENDINGS) + (["link_cut"] if cfg["transport"] == "tcp" else [])
-        for e in endings:
-            for n in batches:
-                name = "teardown/%s/%s/n=%d" % (cfg["name"], e, n)
-                if T.wanted(name, only):
-                    jobs.append(lambda name=name, cfg=cfg, e=e, n=n: run_scenario(name, cfg, e, n, seed))
+        # a TcpForwarder carries any TCP-based transport (the hop relays TLS / WebSocket bytes as they are); not quic
+        endings = list(ENDINGS) + (["link_cut"] if cfg["transport"] != "quic" else [])
+        plan = [(e, n) for e in endings for n in batches]
+        # dimension audit
+        if tier == "thorough":
+            # the bulk endings (link cut / reset: 8 MiB per flow; resets in the middle of a transfer: 600 kB per flow) run in batches of 64
+            # only where they did before the audit (plain tcp): 64 such flows at once through debug builds do not finish within the suite's 5 s
+            plan = [(e, n) for (e, n) in plan if not (e == "link_cut" and n == 64 and cfg["transport"] != "tcp")]
+            plan += [(e, n) for e in ENDINGS_AUDIT[:-1] for n in (1, 8)] + [("mixed", 11)] + ([("mixed", 64)] if cfg["transport"] != "quic" else [])
+            if cfg["transport"] != "quic":
+                plan += [("link_reset", n) for n in (1, 8)]
+        else:
+            plan += [(e, 8) for e in ENDINGS_AUDIT[:-1]] + [("mixed", 11)] + ([("link_reset", 8)] if cfg["transport"] in ("tcp", "tls") else [])
+            plan += [(e, 64) for (c, e) in sorted(big_quick) if c == cfg["name"]]      # batches of 64: not only in the thorough tier
+        for (e, n) in plan:
+            name = "teardown/%s/%s/n=%d" % (cfg["name"], e, n)
+            if T.wanted(name, only):
+                jobs.append(lambda name=name, cfg=cfg, e=e, n=n: run_scenario(name, cfg, e, n, seed))
     random.Random(seed).shuffle(jobs)
     return T.run_parallel(jobs, T.SETTINGS["workers"], on_done=T.report_line)
